@@ -106,7 +106,7 @@ def _delete_paths(r, data):
 
 @st.composite
 def cases(draw):
-    r = draw(st.randoms(use_true_random=False))
+    r = core.rng(draw)
     cfg = envs.gen_cfg(r, modes=("strict",))
     cfg.pop("undefined", None)
     nodes = list(gg.STD_NODES) + (gg.EXTRA_NODES if cfg.get("extra") else [])
